@@ -26,7 +26,7 @@ RULE = ('integer matrices 1x1..4x4 (also rectangular) through EinsumOp, composit
 TRUSTED_BASE = ['numpy.linalg.svd as the true operator norm in the oracle',
                 'the isclose decision of the model uses square roots rounded to 2^-64 (cases within 1e-6 of the boundary are skipped)',
                 'complex operators are not generated for C19 (real part/imag part product is the same formula)']
-ASSUMPTIONS = ['convergence of the power iteration to the norm is not proved (only checked loosely by the oracle for long budgets)']
+ASSUMPTIONS = ['convergence of the power iteration to the norm (generic start vectors) is neither proved nor checked']
 PREAMBLE = 'From MrVerif Require Import Model.CG Model.PowerIter.\nFrom Coq Require Import QArith List.\nImport ListNotations.'
 STATS = {'boundary_skipped': 0, 'max_rel_diff': 0.0, 'stopped_by_tolerance': 0, 'exact_breakdown': 0}
 TOL = 1e-9
@@ -280,10 +280,8 @@ def oracle_power(case, obs):
             for ra, rb in zip(rows, u['seq'] + [u['ret']]):
                 if any(abs(a - b) > 1e-9 * max(abs(a), abs(b)) for a, b in zip(ra, rb)):
                     return f'estimate depends on the length of the start vector: {ra} (scale 2^{case["scale_exp"]}) vs {rb}'
-    if case['tols'] == [0.0, 0.0] and case['maxit'] >= 30 and not _degenerate(case):
-        for v, t in zip(obs['ret'], true):
-            if v < 0.5 * t:
-                return f'after {case["maxit"]} iterations the estimate {v} is below half the norm {t}'
+    # convergence to the norm is deliberately not checked: it holds for generic start vectors only (a start vector orthogonal to
+    # the dominant singular vector, e.g. (-1,1) for [[3,1],[1,3]], stays at the smaller singular value)
     return None
 
 
@@ -405,7 +403,11 @@ FAMILIES = [
     Family('power_iteration', gen_power, impl_power, coq_power, PREAMBLE, compare_power, oracle_power,
            nontrivial=lambda c: c['maxit'] >= 1 and any(any(v) for v in c['v0']) and len(c['mats'][0][0]) > 1, descr=descr_power, shard=15,
            theorem='C19_below_norm, C19_monotone, C19_scale_free'),
-    Family('matrix_norm', gen_matrix, impl_matrix, coq_matrix, PREAMBLE, compare_matrix, oracle_matrix, descr=descr_matrix, shard=100,
+    # two families on the same kind of cases: the combination rule against the model (never matched by a known finding) and the
+    # documented bound against the true norm (horizontal / grid layouts: open finding KF-02)
+    Family('matrix_rule', gen_matrix, impl_matrix, coq_matrix, PREAMBLE, compare_matrix, None, descr=descr_matrix, shard=100,
+           theorem='C19_vertical_rule_is_sum, C19_matrix_bound_refuted (the rule the code implements)'),
+    Family('matrix_norm', gen_matrix, impl_matrix, None, '', None, oracle_matrix, descr=descr_matrix,
            theorem='C19_matrix_bound_refuted, C19_vertical_bound, C19_sum_of_squares_bound_partial'),
     Family('float64_input', gen_f64, impl_f64, None, '', None, oracle_f64, descr=lambda c: {'dtype': c['dtype'], 'positive_tolerance': c['tols'][0] > 0},
            theorem='(implementation-level)'),
